@@ -1071,10 +1071,16 @@ fn recover(run: &Run, cfg: &Cfg, img: &[u8], lives: &[(Meta4, u8)], ctx: &str, a
 }
 
 fn c06_cell(run: &Run, cfg: &Cfg, alphabet: &[Op], depth: usize) {
+  for start in 0..5 {
+    c06_cell_from(run, cfg, alphabet, depth, start);
+  }
+}
+
+fn c06_cell_from(run: &Run, cfg: &Cfg, alphabet: &[Op], depth: usize, start: usize) {
   type S = sync::Arena;
   let n = alphabet.len();
   let starts = [fragmented_starts()[1].clone(), fragmented_starts()[2].clone(), fragmented_starts()[4].clone(), Start::fresh(), fragmented_starts()[5].clone()];
-  for st in &starts {
+  for st in &starts[start..start + 1] {
     let mut idx = vec![0usize; depth];
     loop {
       let word: Vec<Op> = idx.iter().map(|i| alphabet[*i]).collect();
@@ -1189,13 +1195,14 @@ fn c06_concurrent(run: &Run, thorough: bool) {
           if progs[0] == vec![DropPre(0)] && progs[1] == vec![DropPre(0)] {
             progs[1] = vec![DropPre(1)];
           }
-          items.push((Harness { fl, unify: true, min_seg: 8, cap: 256, shape, progs, own_arenas: false, leave: 0, odd: 0 }, if thorough { 3 } else { 2 }));
+          items.push((Harness { fl, unify: true, min_seg: 8, cap: 256, shape, progs, own_arenas: false, leave: 0, odd: 0 }, if thorough { 4 } else { 3 }));
         }
       }
-      if thorough {
-        items.push((Harness { fl, unify: true, min_seg: 8, cap: 256, shape, progs: vec![vec![B(16)], vec![DropPre(0)], vec![B(24)]], own_arenas: false, leave: 0, odd: 0 }, 2));
-        items.push((Harness { fl, unify: true, min_seg: 8, cap: 256, shape, progs: vec![vec![B(16)], vec![DropPre(0)], vec![Discard]], own_arenas: false, leave: 0, odd: 0 }, 2));
-      }
+      // three threads inside operations at the kill
+      let tb = if thorough { 2 } else { 1 };
+      items.push((Harness { fl, unify: true, min_seg: 8, cap: 256, shape, progs: vec![vec![B(16)], vec![DropPre(0)], vec![B(24)]], own_arenas: false, leave: 0, odd: 0 }, tb));
+      items.push((Harness { fl, unify: true, min_seg: 8, cap: 256, shape, progs: vec![vec![B(16)], vec![DropPre(0)], vec![Discard]], own_arenas: false, leave: 0, odd: 0 }, tb));
+      items.push((Harness { fl, unify: true, min_seg: 8, cap: 256, shape, progs: vec![vec![B(16), DropOwn], vec![DropPre(0)], vec![DropPre(1)]], own_arenas: false, leave: 0, odd: 0 }, tb));
     }
   }
   let images = std::sync::atomic::AtomicU64::new(0);
@@ -1219,7 +1226,7 @@ fn c06_concurrent(run: &Run, thorough: bool) {
     }
     crate::crashguard::clear_case();
   });
-  run.set("concurrent_part", json!({"harnesses": items.len(), "schedules": scheds.load(std::sync::atomic::Ordering::Relaxed), "distinct_crash_images_recovered": images.load(std::sync::atomic::Ordering::Relaxed), "preemption_bound": if thorough { 3 } else { 2 }, "menu": menu.iter().map(|p| crate::sched::progs_str(&[p.clone()])).collect::<Vec<_>>(), "note": "a kill while two (thorough: also three) threads are inside operations: every distinct (memory image, live ranges) pair occurring at a scheduling point of any explored schedule is recovered"}));
+  run.set("concurrent_part", json!({"harnesses": items.len(), "schedules": scheds.load(std::sync::atomic::Ordering::Relaxed), "distinct_crash_images_recovered": images.load(std::sync::atomic::Ordering::Relaxed), "preemption_bound": if thorough { 4 } else { 3 }, "triple_bound": if thorough { 2 } else { 1 }, "menu": menu.iter().map(|p| crate::sched::progs_str(&[p.clone()])).collect::<Vec<_>>(), "note": "a kill while two or three threads are inside operations: every distinct (memory image, live ranges) pair occurring at a scheduling point of any explored schedule is recovered"}));
 }
 
 /// replay of one concurrent crash image: the schedule is re-run and the image at the recorded event recovered
@@ -1257,7 +1264,21 @@ pub fn check_c06(tier: Tier) -> i32 {
       items.push(c);
     }
   }
-  par_for_each(&items, |_, c| c06_cell(&run, c, &alphabet, if thorough { 4 } else { 2 }));
+  // every crash image is written to a file and mapped: work items (cell, start state) go to single-threaded
+  // child processes (shard.rs); the unsync and the concurrent part run in the parent
+  let depth = if thorough { 5 } else { 4 };
+  let work: Vec<(usize, usize)> = (0..items.len()).flat_map(|ci| (0..5).map(move |st| (ci, st))).collect();
+  if crate::shard::child().is_some() {
+    for (i, (ci, st)) in work.iter().enumerate() {
+      if crate::shard::mine(i) {
+        c06_cell_from(&run, &items[*ci], &alphabet, depth, *st);
+      }
+    }
+    return crate::shard::finish_child(&run);
+  }
+  if let Err(code) = crate::shard::run_children(&run, "C06", tier, crate::report::nthreads()) {
+    return code;
+  }
   // unsync::Arena performs no atomic accesses: its crash points are the operation boundaries,
   // i.e. the image left by a history that is simply abandoned (no drop, no flush)
   {
@@ -1293,8 +1314,8 @@ pub fn check_c06(tier: Tier) -> i32 {
   }
   c06_concurrent(&run, thorough);
   run.sample(|| json!({"cfg": "sync Optimistic file arena", "start": "full-2eq", "history": "B(7) B(16)", "crash_images": "one image before every atomic access and before the zeroing of the last operation, plus one after it", "recovery": "map_mut, cursor in range, pre-crash live ranges intact, probe workload (allocations, releases, discard_freelist) terminates under an event budget and never re-issues a live range"}));
-  run.rule("for every history of depth 2 (thorough: 4) from 5 start states in 6 cells: the shared mapping is copied before every atomic access (and before the zeroing) of the last operation and after it; every image is written to a file, reopened writable and put through the recovery oracle; unsync: image at every operation boundary; evaluations = crash images recovered; states = distinct images");
-  run.set("bounds", json!({"depth": if thorough { 4 } else { 2 }, "alphabet": alphabet.iter().map(|o| o.short()).collect::<Vec<_>>(), "probe_budget_events_per_call": 600}));
+  run.rule("for every history of depth 4 (thorough: 5) from 5 start states in 6 cells: the shared mapping is copied before every atomic access (and before the zeroing) of the last operation and after it; every image is written to a file, reopened writable and put through the recovery oracle; unsync: image at every operation boundary; evaluations = crash images recovered; states = distinct images");
+  run.set("bounds", json!({"depth": depth, "alphabet": alphabet.iter().map(|o| o.short()).collect::<Vec<_>>(), "probe_budget_events_per_call": 600}));
   run.assume("crash model: process kill with the page cache intact (no torn pages, no reordering of write-back)");
   run.finish()
 }
